@@ -135,6 +135,9 @@ SHAPES = [
     ("bad_ind_x", "ShBad", "({v}),x"),
     ("bad_lng_x", "ShBad", "[{v}],x"),
     ("bad_imm_x", "ShBad", "#{v},x"),
+    ("bad_lng_xin", "ShBad", "[{v},x]"),
+    ("bad_lng_sin_y", "ShBad", "[{v},s],y"),
+    ("bad_lng_yin", "ShBad", "[{v},y]"),
 ]
 SHAPE = {s[0]: s for s in SHAPES}
 SUFFIXES = [None, "b", "w", "l"]
